@@ -1658,10 +1658,6 @@ where
                 let mut first = true;
                 let mut stack_idx = self.open_elems.borrow().len() - 1;
                 loop {
-                    if stack_idx == 0 {
-                        return ProcessResult::Done;
-                    }
-
                     let html;
                     let eq;
                     {
@@ -1673,6 +1669,11 @@ where
                     if !first && html {
                         let mode = self.mode.get();
                         return self.step(mode, Token::Tag(tag));
+                    }
+
+                    // Fragment case: node is the topmost element of the stack.
+                    if stack_idx == 0 {
+                        return ProcessResult::Done;
                     }
 
                     if eq {
